@@ -21,8 +21,9 @@ def bounds(tier):
     return {'sizes/gap': '< 2^10', 'alignment': '{1, 2, 4, 8}', 'rewrites': 7, 'pointer_size': [4, 8]}
 
 
-def assume(a, ps, vft):
-    A = [a[0] == ps, a[6] == vft]
+def assume(a, ps, vft, base_mode=0):
+    A = [a[0] == ps, a[6] == vft, a[14] == base_mode]
+    if base_mode: A += [a[7] == 0, a[10] == 0, z3.URem(a[4], a[0]) == 0, z3.URem(a[2], a[0]) == 0, a[3] == ps]
     A += [z3.ULT(a[1], 1 << 10), z3.UGE(a[1], 1), z3.ULT(a[2], 1 << 10), z3.UGE(a[2], 1), z3.ULT(a[4], 1 << 10)]
     A.append(z3.Or(*[a[3] == x for x in (1, 2, 4, 8)]))
     A += [a[5] >= -(1 << 31), a[5] < (1 << 31) - 4]
@@ -37,8 +38,11 @@ def slices(tier, rng):
     for ps in (4, 8):
         for vft in (0, 1):
             if tier == 'quick' and ((ps == 8 and vft == 0) or (ps == 4 and vft == 1)): continue
-            out.append(Slice('equiv-ps%d-vft%d' % (ps, vft), 't_equiv', 14, lambda a, ps=ps, vft=vft: assume(a, ps, vft),
+            out.append(Slice('equiv-ps%d-vft%d' % (ps, vft), 't_equiv', 15, lambda a, ps=ps, vft=vft: assume(a, ps, vft),
                              opts={'summarize': ['gcd'], 'must_reach': ['ok/ok']}))
+        # the field after the gap is a #[base] whose type has a vftable (the derived type shares it)
+        out.append(Slice('equiv-base-ps%d' % ps, 't_equiv', 15, lambda a, ps=ps: assume(a, ps, 0, 1),
+                         opts={'summarize': ['gcd'], 'must_reach': ['ok/ok']}))
     return out
 
 
